@@ -154,3 +154,90 @@ def _func_of(n):
             p, (ast.FunctionDef, ast.AsyncFunctionDef)):
         p = getattr(p, '_parent', None)
     return p
+
+
+def check_bookkeeping(ctx, fi, rule='R-CURSOR/bookkeeping'):
+    """in a loop that appends pieces under a cursor, the per-item record
+    `table[i] = cursor` (where item i starts) is made in every iteration:
+    an iteration that skips it -- also for an empty piece -- leaves the
+    start of that item at its initial value, and the items after it are
+    read from the wrong place"""
+    from . import coverage as CV
+    from ..core.cfg import cfg_of
+    n = 0
+    loops = dict()
+    for (a, cur, paired) in cursor_sites(fi):
+        lp = _innermost_loop(a)
+        if isinstance(lp, ast.For):
+            loops.setdefault(id(lp), (lp, set()))[1].add(cur)
+    cfg = cfg_of(fi)
+    for (lp, curs) in loops.values():
+        lvars = {x.id for x in ast.walk(lp.target)
+                 if isinstance(x, ast.Name)}
+        recs = []
+        for st in ast.walk(lp):
+            if isinstance(st, ast.Assign) and len(st.targets) == 1 \
+                    and isinstance(st.targets[0], ast.Subscript) \
+                    and _innermost_loop(st) is lp:
+                tg = st.targets[0]
+                idx = {x.id for x in ast.walk(tg.slice)
+                       if isinstance(x, ast.Name)}
+                val = {x.id for x in ast.walk(st.value)
+                       if isinstance(x, ast.Name)}
+                if not isinstance(tg.slice, (ast.Slice, ast.Tuple)) \
+                        and idx and idx <= lvars and (val & curs):
+                    recs.append(st)
+        for k, st in enumerate(recs):
+            n += 1
+
+            def act(node, _st=st):
+                return node.ast is _st
+            CV.check_cover(
+                ctx, fi, rule, f'{fi.qual}:{_role_loop(lp)}:record#{k}',
+                lp, act, what='item',
+                consequence=f'`{unparse(st)[:50]}` is not executed for it, '
+                'so the recorded start of that item (and the extent of '
+                'its neighbour) is wrong')
+    return n
+
+
+def _role_loop(loop):
+    fn = _func_of(loop)
+    outer = [n for n in ast.walk(fn) if isinstance(n, (ast.For, ast.While))]
+    outer.sort(key=lambda n: (n.lineno, n.col_offset))
+    return f'loop#{next((i for i, n in enumerate(outer) if n is loop), 0)}'
+
+
+def check_advance(ctx, fi, rule='R-CURSOR/advance'):
+    """the cursor is advanced in every iteration of its loop.  An iteration
+    may skip the advance only under a test that the *amount* it would have
+    advanced by is zero (`if n == 0: continue` where the cursor moves by
+    n): skipping under any other condition -- in particular because some
+    other quantity of the piece is zero -- leaves the cursor behind, and
+    every later piece lands on top of an earlier one."""
+    from . import coverage as CV
+    n = 0
+    seen = set()
+    for (a, cur, paired) in cursor_sites(fi):
+        lp = _innermost_loop(a)
+        if lp is None or id(a) in seen:
+            continue
+        seen.add(id(a))
+        amount = {x.id for x in ast.walk(a.value) if isinstance(x, ast.Name)}
+
+        def allow(test, edge, _am=amount):
+            if not (CV.is_emptiness_test(test) and edge == 'true'):
+                return False
+            names = {x.id for x in ast.walk(test) if isinstance(x, ast.Name)}
+            return bool(names) and names <= _am
+
+        def act(node, _a=a):
+            return node.ast is _a
+        n += 1
+        CV.check_cover(
+            ctx, fi, rule, f'{fi.qual}:{_role(a)}', lp, act, allow=allow,
+            what='piece',
+            consequence=f'`{unparse(a)[:50]}` is skipped for it although '
+            'the piece may occupy room, so the pieces after it are placed '
+            'too early')
+    return n
